@@ -18,6 +18,8 @@ type Cell struct {
 	val   Val
 	ro    bool   // string-backed (immutable)
 	epoch uint32 // 0: created during package initialisation; else path serial
+	up    *Cell  // enclosing array cell (array elements only)
+	upIdx int32
 }
 
 // Ptr designates a cell. With idx != nil it designates c.kids[idx] where
